@@ -70,6 +70,78 @@ Proof.
 Qed.
 Print Assumptions C13_last_state_reported.
 
+(* C13_alignment for ALL models of the script language (every ic/sc collect pattern, early stop, churn,
+   with/without agent reporters), every max_steps and every step s, unconditionally: the moments are
+   b_trace, the worlds at which the script called collect (ghost field of the model, in call order);
+   the row data of step s are the model-level AND agent-level values of one moment, the last one made
+   at step s; nothing is reported for a step at which the model did not collect *)
+Theorem C13_alignment_all_models : forall k max_steps s,
+  let m := run_model k max_steps in
+  let cfg := bm_cfg (params_of k) in
+  d_csteps (b_d m) = map w_steps (b_trace m) /\
+  match last_at s (b_trace m) with
+  | Some w =>
+      In w (b_trace m) /\ w_steps w = s /\
+      model_data (b_d m) s = map (fun q => (fst q, mval_at w (snd q))) (c_mreps cfg) /\
+      (is_nil (c_areps cfg) = false ->
+       agent_data cfg (b_d m) s = map (fun a => (a_id a, combine (map fst (c_areps cfg))
+                                                         (map (fun q => aval_at w a (snd q)) (c_areps cfg))))
+                                      (w_agents w))
+  | None => ~ In s (d_csteps (b_d m)) /\ model_data (b_d m) s = [] /\ agent_data cfg (b_d m) s = []
+  end.
+Proof. exact alignment_all_models. Qed.
+Print Assumptions C13_alignment_all_models.
+
+(* the run's last collection - the last world of the trace - is reported: its step is requested, it is
+   the moment the rows of that step are built from, and there is at least one such row *)
+Theorem C13_last_state_reported_all_models : forall k max_steps period w id it,
+  let m := run_model k max_steps in
+  last_opt (b_trace m) = Some w ->
+  In (w_steps w) (report_steps period (b_d m)) /\ last_at (w_steps w) (b_trace m) = Some w /\
+  step_rows (bm_cfg (params_of k)) (b_d m) id it k (w_steps w) <> [].
+Proof. exact last_state_reported_all_models. Qed.
+Print Assumptions C13_last_state_reported_all_models.
+
+(* full strength of "steps each model until it stops or has taken max_steps steps" *)
+Theorem C13_steps_taken : forall k max_steps,
+  w_steps (b_w (run_model k max_steps)) =
+  match p_stop (params_of k) with
+  | None => Z.max 0 max_steps
+  | Some s => Z.min (Z.max 0 max_steps) (Z.max 1 s)
+  end.
+Proof. exact steps_taken. Qed.
+Print Assumptions C13_steps_taken.
+
+(* batch_run = running by hand: for every parameter design, iterations, max_steps, period and every
+   completion order of the work list, the rows are a permutation of the union over the runs of the rows
+   built from the model constructed with the run's kwargs and stepped by hand steps_target times *)
+Theorem C13_eq_by_hand : forall ps vals iterations max_steps period order,
+  all_values ps = Some vals ->
+  Permutation order (runs_list iterations (product vals)) ->
+  batch (Batch ps iterations max_steps period)
+    = Ok (batch_rows max_steps period (runs_list iterations (product vals))) /\
+  Permutation (batch_rows max_steps period order)
+              (flat_map (rows_by_hand max_steps period) (runs_list iterations (product vals))).
+Proof.
+  intros ps vals iterations max_steps period order Hv Hp. split.
+  - simpl. rewrite Hv. reflexivity.
+  - exact (eq_by_hand max_steps period _ order Hp).
+Qed.
+Print Assumptions C13_eq_by_hand.
+
+Theorem C13_run_model_by_hand : forall k max_steps, run_model k max_steps = run_by_hand k max_steps.
+Proof. exact run_model_by_hand. Qed.
+Print Assumptions C13_run_model_by_hand.
+
+(* the model's `nth i vals SNone` never falls back to its default, i.e. the code's values[positions[-1]]
+   never raises IndexError: every model_vars list is as long as _collection_steps *)
+Theorem C13_no_index_error : forall k max_steps,
+  let d := b_d (run_model k max_steps) in
+  (forall n vals, In (n, vals) (d_mvars d) -> length vals = length (d_csteps d)) /\
+  (forall s i, last_pos s (d_csteps d) = Some i -> forall n vals, In (n, vals) (d_mvars d) -> (i < length vals)%nat).
+Proof. exact no_index_error. Qed.
+Print Assumptions C13_no_index_error.
+
 (* non-vacuity: a 2 x 3 design with 2 iterations; a model that collects at construction and in step,
    stops at step 3, max_steps 5, period 2: rows for steps 0, 2 and the last collection 3 *)
 Example C13_example :
@@ -89,7 +161,11 @@ Example C13_example :
   aget 3 (d_mvars (b_d (run_model k2 1))) = Some [SInt 0; SInt 1; SInt 1; SInt 3] /\
   aget 3 (model_data (b_d (run_model k2 1)) 0) = Some (SInt 1) /\
   aget 3 (model_data (b_d (run_model k2 1)) 1) = Some (SInt 3) /\
-  length (run_rows 1 1 (0, 0, k2)) = 2%nat.
+  length (run_rows 1 1 (0, 0, k2)) = 2%nat /\
+  length (b_trace (run_model k2 1)) = 4%nat /\
+  map w_steps (b_trace (run_model k 5)) = [0; 1; 2; 3] /\
+  steps_target (params_of k) 5 = 3 /\ steps_target (params_of [(0, 2)]) 5 = 5 /\
+  all_values [(0, PMany [1; 2]); (6, PSingle 7)] = Some [(0, [1; 2]); (6, [7])].
 Proof.
   cbv zeta. split; [vm_compute; reflexivity|]. split.
   - intros p [H|[H|[]]]; subst; simpl; repeat constructor; simpl; intuition congruence.
